@@ -24,7 +24,7 @@ ASSUMPTIONS = [
     'A-1; A-6 backtest mode; A-7',
     'metrics.trades and the ratio helpers run from their real AST over a bounded pandas model (pyvc/pdmodel.py: concrete row count, '
     'symbolic cells; checked against the real pandas by tools/pdmodel_selftest.py): BOUNDED in the number of trades (<= 3 quick, '
-    '<= 5 thorough) and of daily samples (<= 3 quick, <= 5 thorough), never counted as proved',
+    '<= 5 thorough) and of daily samples (<= 3 quick, <= 4 thorough; 5 samples exceed two hours of solver time), never counted as proved',
     'sqrt and x**y with a fractional exponent are uninterpreted (congruence only); +-inf and NaN are one non-finite value; every '
     'float division in metrics.py yields NaN on a zero divisor (numpy scalars), ZeroDivisionError of Python ints is not modelled there',
     'closed trades are contracted records (to_dict with type / PNL / fee / holding_period): ClosedTrade.to_dict itself is C06 territory; '
@@ -310,7 +310,7 @@ def tasks(tier):
     for types in combos:
         ts.append(Task('metrics.trades.' + ''.join(t_[0] for t_ in types), t_trade_metrics(types), overrides=dict(ov), max_paths=20000,
                        extra=dict(xm, bounded=f'{len(types)} closed trades (symbolic PnL, fee, holding period), pandas model', task_timeout_s=1200 if tier == 'quick' else 3600)))
-    for d in ((2, 3) if tier == 'quick' else (2, 3, 4, 5)):
+    for d in ((2, 3) if tier == 'quick' else (2, 3, 4)):
         ts.append(Task(f'metrics.ratios.d{d}', t_ratio_metrics(d), overrides=dict(ov), max_paths=20000,
                        extra=dict(xm, bounded=f'{d} daily equity samples (symbolic), pandas model', task_timeout_s=1200 if tier == 'quick' else 7200)))
     return ts
